@@ -78,6 +78,11 @@ class KillOnPickle(Exception):
 
 
 UNPICKLABLE = [['ret', 'unpicklable'], ['raise', 'unpicklable']]
+# how the worker's arguments are handed over: positional; a kwargs dict the CALLER keeps; a temporary kwargs dict; both
+ARGFORMS = ['args', 'kwargs_kept', 'kwargs_temp', 'mixed_kept']
+# how the target fails: plain raise; raise inside an except block (implicit context); `raise X from Y`; an exception
+# that came out of an inner mpservice Thread / Process (it already carries a traceback text as its cause)
+RAISE_HOWS = ['plain', 'in_except', 'from', 'inner_thread', 'inner_process']
 
 
 def _exc_class(name):
@@ -127,8 +132,12 @@ def gen_case(rng: random.Random, tier: str, kind=None):
     rng.shuffle(order)
     early = (kill is None or kill['phase'] in ('during', 'after')) and rng.random() < 0.3
     call_first = bool(kill) and kill['phase'] in ('before', 'during', 'after') and order[0] in BLOCKING and rng.random() < 0.4
+    how = 'plain'
+    if outcome[0] == 'raise' and isinstance(outcome[1], int) and (kill is None or kill['phase'] == 'after') and rng.random() < 0.5:
+        how = rng.choice(RAISE_HOWS[1:4] * 3 + RAISE_HOWS[4:])
     return dict(kind=kind, outcome=outcome, kill=kill, order=order, early=early, call_first=call_first,
-                slow_reap=kind == 'process' and rng.random() < 0.3, seed=rng.randrange(1 << 30))
+                slow_reap=kind == 'process' and rng.random() < 0.3, argform=rng.choice(ARGFORMS), raise_how=how,
+                seed=rng.randrange(1 << 30))
 
 
 def boundary_cases():
@@ -149,13 +158,21 @@ def boundary_cases():
                     oc = ['raise', 'killonpickle']
                 order = [first] + [a for a in ACCESSORS if a != first]
                 cases.append(dict(kind='process', outcome=oc, kill=dict(phase=phase, sig=sig), order=order,
-                                  early=False, slow_reap=(k % 2 == 0), seed=k))
+                                  early=False, slow_reap=(k % 2 == 0), argform=ARGFORMS[k % 4], seed=k))
                 k += 1
     for oc in reps:
         for first in ACCESSORS:
             order = [first] + [a for a in ACCESSORS if a != first]
             cases.append(dict(kind='thread', outcome=oc, kill=None, order=order, early=False, seed=k))
             k += 1
+    # every way of failing x Process/Thread x the accessor that first meets the exception
+    for how in RAISE_HOWS[1:]:
+        for kind in ('process', 'thread'):
+            for first in ('join', 'result', 'exception', 'wait', 'as_completed'):
+                order = [first] + [a for a in ACCESSORS if a != first]
+                cases.append(dict(kind=kind, outcome=['raise', [0, 3, 4, 6][k % 4]], kill=None, order=order, early=False,
+                                  raise_how=how, argform=ARGFORMS[k % 4], seed=k))
+                k += 1
     # outcomes that cannot cross the pipe: the child fails in send() and ends by itself with status 1 before
     # both messages are sent (for a Thread they are ordinary outcomes)
     for oc in UNPICKLABLE:
@@ -368,6 +385,9 @@ def monitor(case, res):
         tags['exception'] = d['exception'].split(':', 1)[1]
     if len(set(tags.values())) > 1:
         mon.append(dict(prop='C12', rule='disagree', detail=f'different errors from different accessors: {tags}'))
+    if res.get('kwargs_foreign'):
+        mon.append(dict(prop='C12', rule='caller-kwargs-modified',
+                        detail=f'Process()/Thread() changed the dict the caller passed as kwargs=: foreign keys {res["kwargs_foreign"]}'))
     if res.get('tb_problems'):
         mon.append(dict(prop='C12', rule='traceback', detail='; '.join(res['tb_problems'])[:600]))
     return mon
@@ -422,6 +442,12 @@ def run_inner(script, case, outer_bound):
         except Exception:
             tail = ''
         res = dict(infra=f'inner run produced no result (timed_out={timed_out}, rc={p.returncode}, case={json.dumps(case)[:400]}): {tail}')
+    if os.path.exists(of + '.side'):
+        try:
+            with open(of + '.side') as f:
+                res['side'] = f.read()      # what the inner program wrote on the side (it may have ended on its own)
+        except Exception:
+            pass
     res['wall'] = round(wall, 3)
     res['outer_timeout'] = timed_out
     try:
@@ -577,6 +603,44 @@ def _raise_here(cls, args):
     raise cls(*args)
 
 
+def _cause_here():
+    raise KeyError('the cause')
+
+
+def _raise_in_except(cls, args):
+    try:
+        1 / 0
+    except ZeroDivisionError:
+        _raise_here(cls, args)      # implicit context
+
+
+def _raise_from(cls, args):
+    try:
+        _cause_here()
+    except KeyError as y:
+        raise cls(*args) from y     # explicit cause
+
+
+def _inner_worker(name, args):
+    _raise_here(_exc_class(name), args)
+
+
+def _via_inner(cls_name, args, inner_kind):
+    """the exception comes out of an inner mpservice Thread / Process and propagates out of this target"""
+    if inner_kind == 'thread':
+        from mpservice.threading import Thread as W
+    else:
+        from mpservice.multiprocessing import Process as W
+    t = W(target=_inner_worker, args=(cls_name, args))
+    t.start()
+    t.join()                        # re-raises the inner worker's exception here
+
+
+# frames of the target that the traceback text must name, per way of failing
+RAISE_FRAMES = {'plain': ['_raise_here'], 'in_except': ['_raise_in_except', '_raise_here'], 'from': ['_raise_from'],
+                'inner_thread': ['_via_inner', '_raise_here'], 'inner_process': ['_via_inner', '_raise_here']}
+
+
 def _raise_local():
     class LocalError(Exception):        # a local class: its instances cannot be pickled
         pass
@@ -613,7 +677,8 @@ def target(spec, ready, after, phase, flood=0, dur=0.0, logs=0):
             after.set()
             time.sleep(600)
         threading.Thread(target=keeper, daemon=False).start()
-    kind, x = spec
+    kind, x = spec[:2]
+    how = spec[2] if len(spec) > 2 else 'plain'
     if x == 'unpicklable':
         if kind == 'ret':
             return lambda v: v + 1
@@ -624,6 +689,12 @@ def target(spec, ready, after, phase, flood=0, dur=0.0, logs=0):
         if x == 'killonpickle':
             raise KillOnPickle(spec_sig[0])
         name, args = EXCS[x]
+        if how == 'in_except':
+            _raise_in_except(_exc_class(name), args)
+        elif how == 'from':
+            _raise_from(_exc_class(name), args)
+        elif how in ('inner_thread', 'inner_process'):
+            _via_inner(name, args, how.split('_')[1])
         _raise_here(_exc_class(name), args)
     if kind == 'exit':
         sys.exit(EXITS[x])
@@ -669,19 +740,18 @@ def _canon_exc(case, e, tbp, where):
     if oc[0] == 'raise' and oc[1] != 'killonpickle':
         name, args = EXCS[oc[1]]
         if cls == name and list(e.args) == list(args):
-            # the child's traceback text must come along
-            if case['kind'] == 'process':
-                if not is_remote_exception(e):
-                    tbp.append(f'{where}: exception is not a remote exception (no traceback text)')
-                else:
-                    tb = get_remote_traceback(e)
-                    if '_raise_here' not in tb or 'Traceback' not in tb or name not in tb:
-                        tbp.append(f'{where}: traceback text lacks the raising frame: {tb[-200:]!r}')
-            else:
-                c = e.__cause__
-                tb = str(c.args[0]) if c is not None and c.args else ''
-                if '_raise_here' not in tb or 'Traceback' not in tb:
-                    tbp.append(f'{where}: thread traceback text lacks the raising frame: {tb[-200:]!r}')
+            # the worker's traceback text must come along: the full formatted text of the exception as the parent
+            # sees it (with its cause chain) must name the frames of the target that raised, however it raised
+            import re
+            import traceback
+            if case['kind'] == 'process' and not is_remote_exception(e):
+                tbp.append(f'{where}: exception is not a remote exception (no traceback text)')
+            text = ''.join(traceback.format_exception(type(e), e, e.__traceback__))
+            how = case.get('raise_how') or 'plain'
+            missing = [fn for fn in RAISE_FRAMES[how] + ['target'] if not re.search(r', in ' + fn + r'\b', text)]
+            if missing or 'Traceback' not in text or name not in text:
+                tbp.append(f'{where}: the traceback text of the {case["kind"]} worker (failing by {how}) does not name the '
+                           f'frame(s) {missing} of the target: ...{text[-300:]!r}')
             return f'child:{oc[1]}'
     if oc[0] == 'raise' and oc[1] == 'killonpickle' and cls == 'KillOnPickle':
         return 'child:killonpickle'
@@ -735,18 +805,35 @@ def _inner(case):
     if case.get('flood') or case.get('logs'):
         import logging
         logging.getLogger().addHandler(logging.NullHandler())
+    spec = list(case['outcome']) + [case.get('raise_how') or 'plain']
     if case['kind'] == 'process':
         ready, after = mpm.Event(), mpm.Event()
-        w = mpm.Process(target=target_proc if not (case.get('early') and phase is None) else target_proc_go,
-                        args=(case['outcome'], ready, after, phase, sig, case.get('flood', 0), case.get('dur', 0.0),
-                              case.get('logs', 0)))
+        cls, tgt = mpm.Process, (target_proc if not (case.get('early') and phase is None) else target_proc_go)
+        names = ['spec', 'ready', 'after', 'phase', 'sig', 'flood', 'dur', 'logs']
+        vals = [spec, ready, after, phase, sig, case.get('flood', 0), case.get('dur', 0.0), case.get('logs', 0)]
         mod_wait, mod_asc = mpm.wait, mpm.as_completed
     else:
         ready, after = threading.Event(), threading.Event()
-        w = mpt.Thread(target=target if not case.get('early') else target_go,
-                       args=(case['outcome'], ready, after, phase))
+        cls, tgt = mpt.Thread, (target if not case.get('early') else target_go)
+        names = ['spec', 'ready', 'after', 'phase']
+        vals = [spec, ready, after, phase]
         mod_wait, mod_asc = mpt.wait, mpt.as_completed
+    form = case.get('argform') or 'args'
+    kept = None
+    if form == 'args':
+        w = cls(target=tgt, args=tuple(vals))
+    elif form == 'kwargs_temp':
+        w = cls(target=tgt, kwargs=dict(zip(names, vals)))
+    elif form == 'kwargs_kept':
+        kept = dict(zip(names, vals))           # the caller goes on holding (and could reuse) this dict
+        w = cls(target=tgt, kwargs=kept)
+    else:
+        kept = dict(zip(names[2:], vals[2:]))
+        w = cls(target=tgt, args=tuple(vals[:2]), kwargs=kept)
     w.start()
+    if kept is not None:
+        _KEEP.append(kept)
+        out['kwargs_foreign'] = sorted(k for k in kept if k not in names)
     _KEEP.append(w)     # never let the worker object be finalized inside the measured run (its GC
     #                     finalizer joins the logger thread; we leave through os._exit)
     out['t_start'] = round(time.time() - t0, 3)
